@@ -167,6 +167,7 @@ type pool struct {
 	seenFind map[string]bool
 	maxPaths int
 	stop     bool
+	samplesAsked int
 }
 
 func (p *pool) push(prefix []Decision) {
@@ -185,6 +186,13 @@ func (p *pool) report(f Finding) {
 	}
 	p.seenFind[key] = true
 	p.stats.Findings = append(p.stats.Findings, f)
+}
+
+func (p *pool) wantSample() bool {
+	p.mu.Lock()
+	defer p.mu.Unlock()
+	p.samplesAsked++
+	return p.samplesAsked <= 4
 }
 
 func (p *pool) take() ([]Decision, bool) {
@@ -459,7 +467,7 @@ func (i *interpreter) runPath(pkg *ssa.Package, fn *ssa.Function, prefix []Decis
 	}
 	call(i, nil, 0, fn, nil)
 	res.Out = OutOK
-	if len(i.ps.inputs) > 0 && len(i.ps.inputs) <= 64 {
+	if len(i.ps.inputs) > 0 && len(i.ps.inputs) <= 64 && i.sched.wantSample() {
 		res.Sample = i.model()
 	}
 	return
